@@ -10,12 +10,12 @@ import (
 // C02: a successful Flush makes the entire store state durable.
 
 var mixC02 = Mix{Set: 30, Delete: 10, GetItem: 3, Visit: 2, Flush: 14, Evict: 4, Reopen: 5,
-	SetCollNew: 3, SetCollExisting: 1, RemoveColl: 3, Snapshot: 1, SnapClose: 1, CollWrite: 1, FaultyFlush: 2}
+	SetCollNew: 3, SetCollExisting: 1, RemoveColl: 3, Snapshot: 1, SnapClose: 1, CollWrite: 1, FaultyFlush: 2, FlushRevert: 1}
 
 func init() {
 	register(&Prop{
 		ID: "C02", Level: "exploration",
-		Rule: "case = random history over 2-4 collections (plain and exotic names, boundary key/value sizes) with Flush density 5-30%, collection creation/removal between flushes, Collection.Write(), evictions, flushes that FAIL on one of their writes (outright or torn) and are retried, and 0-5 re-opens after which the history continues on the re-opened store. After every successful Flush, after each of the following 6 steps, at every re-open and at the end, a SECOND store is opened on a copy of the current file image and its complete state (collection names, keys, values, priorities, totals, min/max) is compared with the model's state at the most recent successful Flush; the same image is decoded by the independent decoder. Unflushed work (incl. created/removed collections) must never be visible there. Non-trivial = at least two flushes with mutations between them, unflushed changes pending at some re-open comparison, and a collection created or removed; distinct = distinct op-trace hash.",
+		Rule: "case = random history over 2-4 collections (plain and exotic names, boundary key/value sizes) with Flush density 5-30%, collection creation/removal between flushes, Collection.Write(), evictions, flushes that FAIL on one of their writes (outright or torn) and are retried, occasional FlushRevert (the expected durable state is then the flush before), and 0-5 re-opens after which the history continues on the re-opened store. After every successful Flush, after each of the following 6 steps, at every re-open and at the end, a SECOND store is opened on a copy of the current file image and its complete state (collection names, keys, values, priorities, totals, min/max) is compared with the model's state at the most recent successful Flush; the same image is decoded by the independent decoder. Unflushed work (incl. created/removed collections) must never be visible there. Non-trivial = at least two flushes with mutations between them, unflushed changes pending at some re-open comparison, and a collection created or removed; distinct = distinct op-trace hash.",
 		Assumptions: []string{"collection names are valid UTF-8 (invalid UTF-8 names are a recorded input class)", "single goroutine",
 			"a Flush that returned an error is not a successful Flush: its (possibly complete) root record is not an expected durable state; the full enumeration of fault points is C07's"},
 		NumCases: func(tier string) int { return pick(tier, 1000, 40000) },
